@@ -206,6 +206,65 @@ func loadOfField(v ssa.Value, f *types.Var) bool {
 	return lf != nil && lf == f
 }
 
+// curName maps a canonical field name to the name the field has in the current tree (pure renames
+// are followed through the anchor table); unique over the structs of the two packages.
+func curName(p *load.Program, canonical string) string {
+	if p.Renames == nil {
+		return canonical
+	}
+	found := ""
+	for _, m := range p.Renames.FieldAlias {
+		if a, ok := m[canonical]; ok {
+			if found != "" && found != a {
+				return canonical
+			}
+			found = a
+		}
+	}
+	if found != "" {
+		return found
+	}
+	return canonical
+}
+
+// fname is the canonical short name of a function (renames followed).
+func fname(f *ssa.Function) string {
+	id := kit.FuncID(f)
+	if i := strings.LastIndex(id, "."); i >= 0 {
+		return id[i+1:]
+	}
+	return id
+}
+
+// pAtom is the linear atom of the idx-th parameter of f (receiver = 0), independent of its name.
+func pAtom(f *ssa.Function, idx int) kit.Lin {
+	if idx < len(f.Params) {
+		return kit.LinAtom("p:" + f.Params[idx].Name())
+	}
+	return kit.LinBad("parameter %d missing", idx)
+}
+
+// prmAt is the idx-th parameter of f (receiver = 0) or nil.
+func prmAt(f *ssa.Function, idx int) *ssa.Parameter {
+	if idx < len(f.Params) {
+		return f.Params[idx]
+	}
+	return nil
+}
+
+// prmOfType returns the n-th (0-based) parameter of f whose type string ends with suffix.
+func prmOfType(f *ssa.Function, suffix string, n int) *ssa.Parameter {
+	for _, prm := range f.Params {
+		if strings.HasSuffix(prm.Type().String(), suffix) {
+			if n == 0 {
+				return prm
+			}
+			n--
+		}
+	}
+	return nil
+}
+
 // recvPtr maps a receiver argument to the pointer it was loaded from when the method has a value
 // receiver (`(*p).M()` passes a struct copy `*p`).
 func recvPtr(v ssa.Value) ssa.Value {
